@@ -203,7 +203,7 @@ def _roundtrip(tier, seed):
     import tempfile
     warnings.simplefilter("ignore")
     evals, distinct, failures, samples, known = 0, set(), [], [], []
-    for name, wn in M.all_models(tier):
+    for name, wn in M.all_models(tier) + M.dict_only_models():
         d0 = wntr.network.to_dict(wn)
         for mode in ("dict", "json", "append"):
             try:
